@@ -303,6 +303,16 @@ impl FieldElement {
     pub(crate) fn invsqrt(&self) -> (Choice, FieldElement) {
         FieldElement::sqrt_ratio_i(&FieldElement::ONE, self)
     }
+
+    #[cfg(curve25519_dalek_verif)]
+    pub(crate) fn verif_pow22501(&self) -> (FieldElement, FieldElement) {
+        self.pow22501()
+    }
+
+    #[cfg(curve25519_dalek_verif)]
+    pub(crate) fn verif_pow_p58(&self) -> FieldElement {
+        self.pow_p58()
+    }
 }
 
 #[cfg(test)]
